@@ -3,11 +3,12 @@ Model of `fpy2/ops.py` + the two engines (`number/engine/gmp.py`, `real.py`):
 an operation is evaluated by the MPFR engine (round-to-odd intermediate with the
 context's `round_params()` digits, computed toward zero with a sticky bit) when all
 operands are `Float` and the context is not exact, else by the exact `RealEngine`;
-`ops._normalize` then rounds once under the context.
+`ops._normalize` then rounds once under the context and sets `invalid` / `divzero`.
 
-MPFR itself is external: for +, −, ×, fma, ÷, √ its toward-zero result and inexact
-ternary are *computed* here in integers (truncation + "was anything lost"), which is the
-contract `gmputils._round_odd` relies on.
+MPFR itself is external: for +, −, ×, fma, ÷, √, ∛, hypot, fmod, remainder, integer powers,
+copysign, min/max its toward-zero result and inexact ternary are *computed* here in integers
+(truncation + "was anything lost"), which is the contract `gmputils._round_odd` relies on.
+MPFR's own exponent range (|e| < 2^62) is not modelled.
 -/
 import Fpy.Model.Num.Ctx
 namespace Fpy
@@ -38,6 +39,9 @@ def RF.toRat (x : RF) : Int × Nat :=
   let m : Int := if x.s then -(x.c : Int) else x.c
   if x.exp ≥ 0 then (m * 2 ^ x.exp.toNat, 1) else (m, 2 ^ (-x.exp).toNat)
 
+/-- `_round_odd` on a truncated significand: the sticky bit is OR-ed into the last digit -/
+def rtoBit (c : Nat) (inex : Bool) : Nat := if c % 2 == 0 && inex then c + 1 else c
+
 /-- round-to-odd of an exact dyadic value to `prec` significant digits
 (MPFR toward-zero at `prec` digits, then `_round_odd`) -/
 def rtoRF (x : RF) (prec : Nat) : RF :=
@@ -61,41 +65,64 @@ def mpfrRtoRF (x : RF) (prec : Option Nat) (n : Option Int) : Except Err RF :=
       let e := x.e
       if e ≤ n then .ok (rtoRF x 2) else .ok (rtoRF x ((e - n).toNat + 2))
 
-/-- integer square root (floor) by Newton iteration with fuel -/
-def isqrtAux (n : Nat) : Nat → Nat → Nat
-  | 0, x => x
-  | fuel + 1, x =>
-    let y := (x + n / x) / 2
-    if y < x then isqrtAux n fuel y else x
+/-- `mpfr_call` precision selection for a result given as "its round-to-odd value at any number
+of digits" (`f prec`): two digits first, then `e - n + 2` digits if anything lies above `n`. -/
+def mpfrTwoPass (f : Nat → RF) (prec : Option Nat) (n : Option Int) : Except Err RF :=
+  match prec with
+  | some p => .ok (f (p + 2))
+  | none =>
+    match n with
+    | none => .error .valueError
+    | some n =>
+      let y2 := f 2
+      let e := y2.e
+      if e ≤ n then .ok y2 else .ok (f ((e - n).toNat + 2))
 
-def isqrt (n : Nat) : Nat :=
-  if n = 0 then 0 else isqrtAux n (n.log2 + 2) (2 ^ (n.log2 / 2 + 1))
+/-- integer `k`-th root (floor), digit by digit from the top -/
+def irootGo (k n : Nat) : Nat → Nat → Nat
+  | 0, r => r
+  | i + 1, r => if (r + 2 ^ i) ^ k ≤ n then irootGo k n i (r + 2 ^ i) else irootGo k n i r
 
-/-- square root of a positive RF truncated to `prec` digits with the sticky bit folded into the
-last digit (round to odd): scale to an even exponent with at least `2*prec` digits, take the
-integer square root, truncate. -/
-def rtoSqrt (x : RF) (prec : Nat) : RF :=
-  let par : Nat := if x.exp % 2 == 0 then 0 else 1
-  let need : Nat := 2 * prec + 2
-  let j : Nat := if x.p + par ≥ need then 0 else (need - (x.p + par) + 1) / 2
-  let c' := x.c * 2 ^ (2 * j + par)
-  let e' : Int := x.exp - ((2 * j + par : Nat) : Int)
-  let r := isqrt c'
-  let k := bitLength r - prec            -- digits to drop (r has at least `prec` digits)
-  let t := r / 2 ^ k
-  let inex := r % 2 ^ k != 0 || r * r != c'
-  ⟨false, e' / 2 + k, if t % 2 == 0 && inex then t + 1 else t⟩
+def iroot (k n : Nat) : Nat := irootGo k n (bitLength n / k + 1) 0
+
+/-- integer square root (floor) -/
+def isqrt (n : Nat) : Nat := iroot 2 n
+/-- integer cube root (floor) -/
+def icbrt (n : Nat) : Nat := iroot 3 n
+
+/-- `k`-th root (`k = 2, 3`) of the magnitude of a non-zero RF truncated to `prec` digits with the
+sticky bit folded into the last digit (round to odd): scale to an exponent divisible by `k` with
+at least `k*prec + k` digits, take the integer root, truncate.  The sign is kept. -/
+def rtoRoot (k : Nat) (x : RF) (prec : Nat) : RF :=
+  let need : Nat := k * prec + k
+  let r0 : Nat := (x.exp % (k : Int)).toNat
+  let j : Nat := if x.p + r0 ≥ need then 0 else (need - (x.p + r0) + (k - 1)) / k
+  let sh : Nat := k * j + r0
+  let c' := x.c * 2 ^ sh
+  let e' : Int := x.exp - (sh : Int)
+  let r := iroot k c'
+  let d := bitLength r - prec            -- digits to drop (`r` has more than `prec` digits)
+  let t := r / 2 ^ d
+  let inex := r % 2 ^ d != 0 || r ^ k != c'
+  ⟨x.s, e' / (k : Int) + d, rtoBit t inex⟩
+
+/-- square root of a positive RF, round to odd at `prec` digits -/
+def rtoSqrt (x : RF) (prec : Nat) : RF := rtoRoot 2 { x with s := false } prec
 
 inductive Op
   | add | sub | mul | div | fma | neg | fabs | sqrt | copysign | fdim | fmin | fmax
   | ceil | floor | trunc | roundint | nearbyint | round | roundExact
+  | cbrt | hypot | mod | fmod | remainder | pow | roundAt | cast
 deriving DecidableEq, Repr, Inhabited
 
 /-- result of the engine step: an exact or round-to-odd `Float`, or an exact `Fraction` -/
 abbrev EngRes := NV
 
+def nvIsFloat : NV → Bool | .fv _ => true | _ => false
+def nvFloat? : NV → Option FV | .fv v => some v | _ => none
 def nvIsNan : NV → Bool | .fv v => v.isNan | _ => false
 def nvIsInf : NV → Bool | .fv v => v.isInf | _ => false
+def nvIsNar : NV → Bool | .fv v => v.isNar | _ => false
 def nvIsZero : NV → Bool | .fv v => v.isZero | .q n _ => n == 0
 def nvSign : NV → Bool | .fv v => v.sign | .q n _ => n < 0
 def nvRat : NV → Int × Nat
@@ -105,6 +132,8 @@ def nvRat : NV → Int × Nat
 
 def ratAdd (a b : Int × Nat) : Int × Nat := (a.1 * b.2 + b.1 * a.2, a.2 * b.2)
 def ratMul (a b : Int × Nat) : Int × Nat := (a.1 * b.1, a.2 * b.2)
+/-- `a < b` on (numerator, positive denominator) pairs -/
+def ratLt (a b : Int × Nat) : Bool := a.1 * b.2 < b.1 * a.2
 
 /-- `RealEngine.add` -/
 def realAdd (x y : NV) : NV :=
@@ -148,10 +177,162 @@ def realDiv (x y : NV) : NV :=
       | .fv _, .fv _ => .ofRat num den       -- both Float: a dyadic quotient becomes a Float
       | _, _ => .frac num den
 
+/-- `RealEngine.copysign` -/
+def realCopysign (x y : NV) : NV :=
+  let s := nvSign y
+  match x with
+  | .fv v => .fv (v.withSign s)
+  | .q n d => if n = 0 then .fv (.fin ⟨s, 0, 0⟩) else .q (if s then -(n.natAbs : Int) else n.natAbs) d
+
+/-- Python `y > x` / `y < x` between `Float` and `Fraction` values (`Float.compare`,
+`RealFloat.compare` with a `Fraction`); unordered (NaN) ⇒ `false` -/
+def nvCompare (a b : NV) : Option Ordering :=
+  match a, b with
+  | .fv u, .fv v => u.compare v
+  | _, _ =>
+    if nvIsNan a || nvIsNan b then none
+    else if nvIsInf a then some (if nvSign a then .lt else .gt)
+    else if nvIsInf b then some (if nvSign b then .gt else .lt)
+    else
+      let p := nvRat a; let q := nvRat b
+      some (if ratLt p q then .lt else if ratLt q p then .gt else .eq)
+
+/-- `RealEngine.fmax = max(x, y)` (Python `max`: `y` only when `y > x`) -/
+def realFmax (x y : NV) : NV := if nvCompare y x == some .gt then y else x
+/-- `RealEngine.fmin = min(x, y)` -/
+def realFmin (x y : NV) : NV := if nvCompare y x == some .lt then y else x
+
+/-- `real._int_value` -/
+def nvIntValue : NV → Option Int
+  | .fv (.fin r) => r.toInt?
+  | .fv _ => none
+  | .q n d => if d = 1 then some n else none
+
+/-- `real._log2_exact` -/
+def nvLog2Exact : NV → Option Int
+  | .fv (.fin r) => if r.c != 0 && isPow2 r.c then some r.e else none
+  | _ => none
+
+def maxPowExponent : Nat := 65536
+
+/-- `q ** n` for a non-zero rational `q = num/den` and any integer `n`, as (numerator, denominator) -/
+def ratPow (num : Int) (den : Nat) (n : Int) : Int × Nat :=
+  let k := n.natAbs
+  if n ≥ 0 then (num ^ k, den ^ k)
+  else
+    -- (num/den)^(-k) = den^k / num^k with the sign moved to the numerator
+    let sg : Int := if num < 0 && k % 2 == 1 then -1 else 1
+    (sg * ((den ^ k : Nat) : Int), num.natAbs ^ k)
+
+/-- `RealEngine.pow`; `none` ⇒ the engine declines (non-integer exponent or exponent too large) -/
+def realPow (x y : NV) : Option NV :=
+  match nvIntValue y with
+  | none => none
+  | some n =>
+    let k := nvLog2Exact x
+    if k.isNone && n.natAbs > maxPowExponent then none
+    else
+      let odd : Bool := n % 2 == 1
+      if nvIsNan x || nvIsInf x then
+        if n == 0 then some (.fv (.fin ⟨false, 0, 1⟩))
+        else if nvIsNan x then some (.fv (.nan false))
+        else if n > 0 then some (.fv (.inf (nvSign x && odd)))
+        else some (.fv (.fin ⟨nvSign x && odd, 0, 0⟩))
+      else if n < 0 && nvIsZero x then some (.fv (.inf (nvSign x && odd)))
+      else match k with
+        | some k => some (.fv (.fin ⟨nvSign x && odd, k * n, 1⟩))
+        | none =>
+          match x with
+          | .fv (.fin r) =>
+            if n ≥ 0 then some (.fv (.fin (r.pow n.toNat)))
+            else
+              let a := r.toRat
+              let p := ratPow a.1 a.2 n
+              some (.ofRat p.1 p.2)
+          | .fv _ => none      -- unreachable
+          | .q num den => let p := ratPow num den n; some (.frac p.1 p.2)
+
+/-- `RealEngine._real_rint` -/
+def realRint (x : NV) (rm : RM) : Except Err NV :=
+  match x with
+  | .fv (.fin r) =>
+    match r.round none (some (-1)) rm with
+    | .ok (y, _) => .ok (.fv (.fin y))
+    | .error e => .error e
+  | .fv v => .ok (.fv v)
+  | .q num den =>
+    match mpfrValue (num < 0) num.natAbs den none (some (-1)) with
+    | .error e => .error e
+    | .ok y =>
+      match y.round none (some (-1)) rm with
+      | .ok (z, _) => .ok (.fv (.fin z))
+      | .error e => .error e
+
+/-- MPFR result `Float` of a value that is already exact: zero keeps its sign, a non-zero finite
+value is rounded to odd at the working precision, NaN loses its sign -/
+def mpfrExactFV (v : FV) (prec : Option Nat) (n : Option Int) : Except Err FV :=
+  match v with
+  | .fin x => if x.c = 0 then .ok (.fin ⟨x.s, 0, 0⟩) else (mpfrRtoRF x prec n).map FV.fin
+  | .inf s => .ok (.inf s)
+  | .nan _ => .ok (.nan false)
+
+/-- `mpfr_div` on two finite non-zero values: exact rational quotient, round to odd -/
+def mpfrDivFin (x y : RF) (prec : Option Nat) (n : Option Int) : Except Err FV :=
+  match realDiv (.fv (.fin x)) (.fv (.fin y)) with
+  | .fv (.fin z) => if z.c = 0 then .ok (.fin ⟨z.s, 0, 0⟩) else (mpfrRtoRF z prec n).map FV.fin
+  | .fv v => .ok v
+  | .q num den =>
+    match mpfrValue (num < 0) num.natAbs den prec n with
+    | .ok z => .ok (.fin z)
+    | .error e => .error e
+
+/-- sign bit MPFR sees for an operand (`float_to_mpfr` drops the sign of NaN) -/
+def mpfrSign : FV → Bool
+  | .nan _ => false
+  | v => v.sign
+
+/-- aligned significands of two finite values: `(e, cx, cy)` with `x = ±cx·2^e`, `y = ±cy·2^e` -/
+def alignRF (x y : RF) : Int × Nat × Nat :=
+  let e := min x.exp y.exp
+  (e, RF.shl x.c (x.exp - e), RF.shl y.c (y.exp - e))
+
+/-- exact `fmod` of finite `x` by finite non-zero `y`: `x − trunc(x/y)·y`, sign of `x` -/
+def fmodRF (x y : RF) : RF :=
+  let (e, cx, cy) := alignRF x y
+  ⟨x.s, e, cx % cy⟩
+
+/-- exact IEEE `remainder` of finite `x` by finite non-zero `y`: `x − n·y`, `n` the integer nearest
+to `x/y`, ties to even; a zero result has the sign of `x` -/
+def remainderRF (x y : RF) : RF :=
+  let (e, cx, cy) := alignRF x y
+  let q := cx / cy
+  let r := cx % cy
+  if 2 * r < cy || (2 * r == cy && q % 2 == 0) then ⟨x.s, e, r⟩
+  else ⟨!x.s, e, cy - r⟩
+
+/-- `MPFREngine._mod` on two finite non-zero values: floor of the round-to-odd quotient at
+`n = −1`, then the exact `x − q·y` with `Float` arithmetic -/
+def modFin (x y : RF) : Except Err FV :=
+  match mpfrDivFin x y none (some (-1)) with
+  | .error e => .error e
+  | .ok (.fin qf) =>
+    match qf.round none (some (-1)) .rtn with
+    | .error e => .error e
+    | .ok (qr, _) =>
+      match qr.toInt? with
+      | none => .error .valueError
+      | some q => .ok (FV.add (.fin x) (FV.neg (FV.mul (.fin y) (.fin (RF.ofInt q)))))
+  | .ok _ => .error .valueError     -- `math.floor` of a non-finite Float (unreachable)
+
 /-- MPFR engine on `Float` operands: IEEE special-value arms as MPFR (toward zero) gives them,
 finite arms exact-then-round-to-odd. `none` ⇒ this engine declines (RealEngine is next). -/
 def mpfrOp (op : Op) (args : List FV) (prec : Option Nat) (n : Option Int) : Option (Except Err FV) :=
   let rto (x : RF) : Except Err FV := (mpfrRtoRF x prec n).map FV.fin
+  let exact (v : FV) : Except Err FV := mpfrExactFV v prec n
+  let subFin (x y : RF) : Except Err FV :=
+    let y' := y.neg
+    if x.c = 0 && y'.c = 0 then .ok (.fin ⟨x.s && y'.s, 0, 0⟩)
+    else let z := x.add y'; if z.c = 0 then .ok (.fin ⟨false, 0, 0⟩) else rto z
   match op, args with
   | .add, [a, b] =>
     some (match a, b with
@@ -162,10 +343,7 @@ def mpfrOp (op : Op) (args : List FV) (prec : Option Nat) (n : Option Int) : Opt
       | _, _ => .ok (FV.add a b))
   | .sub, [a, b] =>
     some (match a, b with
-      | .fin x, .fin y =>
-        let y' := y.neg
-        if x.c = 0 && y'.c = 0 then .ok (.fin ⟨x.s && y'.s, 0, 0⟩)
-        else let z := x.add y'; if z.c = 0 then .ok (.fin ⟨false, 0, 0⟩) else rto z
+      | .fin x, .fin y => subFin x y
       | _, _ => .ok (FV.add a b.neg))
   | .mul, [a, b] =>
     some (match a, b with
@@ -174,13 +352,12 @@ def mpfrOp (op : Op) (args : List FV) (prec : Option Nat) (n : Option Int) : Opt
   | .neg, [a] => some (match a with | .fin x => (if x.c = 0 then .ok (.fin ⟨!x.s, 0, 0⟩) else rto x.neg) | v => .ok (match v with | .nan _ => .nan false | w => w.neg))
   | .fabs, [a] => some (match a with | .fin x => (if x.c = 0 then .ok (.fin ⟨false, 0, 0⟩) else rto x.abs) | v => .ok (match v with | .nan _ => .nan false | w => w.abs))
   | .div, [a, b] =>
-    some (match realDiv (.fv a) (.fv b) with
-      | .fv (.fin z) => if z.c = 0 then .ok (.fin ⟨z.s, 0, 0⟩) else rto z
-      | .fv v => .ok v
-      | .q num den =>
-        match mpfrValue (num < 0) num.natAbs den prec n with
-        | .ok z => .ok (.fin z)
-        | .error e => .error e)
+    some (match a, b with
+      | .fin x, .fin y =>
+        if x.c = 0 || y.c = 0 then
+          (match realDiv (.fv a) (.fv b) with | .fv v => .ok v | .q _ _ => .error .assertion)
+        else mpfrDivFin x y prec n
+      | _, _ => match realDiv (.fv a) (.fv b) with | .fv v => .ok v | .q _ _ => .error .assertion)
   | .sqrt, [a] =>
     some (match a with
       | .nan _ => .ok (.nan false)
@@ -188,16 +365,24 @@ def mpfrOp (op : Op) (args : List FV) (prec : Option Nat) (n : Option Int) : Opt
       | .fin x =>
         if x.c = 0 then .ok (.fin ⟨x.s, 0, 0⟩)
         else if x.s then .ok (.nan false)
-        else
-          match prec with
-          | some p => .ok (.fin (rtoSqrt x (p + 2)))
-          | none =>
-            match n with
-            | none => .error .valueError
-            | some n =>
-              let y2 := rtoSqrt x 2
-              let e := y2.e
-              if e ≤ n then .ok (.fin y2) else .ok (.fin (rtoSqrt x ((e - n).toNat + 2))))
+        else (mpfrTwoPass (rtoSqrt x) prec n).map FV.fin)
+  | .cbrt, [a] =>
+    some (match a with
+      | .nan _ => .ok (.nan false)
+      | .inf s => .ok (.inf s)
+      | .fin x =>
+        if x.c = 0 then .ok (.fin ⟨x.s, 0, 0⟩)
+        else (mpfrTwoPass (rtoRoot 3 x) prec n).map FV.fin)
+  | .hypot, [a, b] =>
+    some (
+      if a.isInf || b.isInf then .ok (.inf false)
+      else match a, b with
+        | .fin x, .fin y =>
+          if x.c = 0 && y.c = 0 then .ok (.fin ⟨false, 0, 0⟩)
+          else
+            let z := (x.mul x).add (y.mul y)       -- exact sum of squares
+            (mpfrTwoPass (rtoSqrt z) prec n).map FV.fin
+        | _, _ => .ok (.nan false))
   | .fma, [a, b, c] =>
     some (match a, b, c with
       | .fin x, .fin y, .fin z =>
@@ -205,41 +390,221 @@ def mpfrOp (op : Op) (args : List FV) (prec : Option Nat) (n : Option Int) : Opt
         if m.c = 0 && z.c = 0 then .ok (.fin ⟨m.s && z.s, 0, 0⟩)
         else let w := m.add z; if w.c = 0 then .ok (.fin ⟨false, 0, 0⟩) else rto w
       | _, _, _ => .ok (FV.add (FV.mul a b) c))
+  | .copysign, [a, b] => some (exact (a.withSign (mpfrSign b)))
+  | .fmax, [a, b] =>
+    some (match a, b with
+      | .nan _, _ => exact b
+      | _, .nan _ => exact a
+      | _, _ =>
+        match a.compare b with
+        | some .lt => exact b
+        | some .gt => exact a
+        | _ => if a.isZero && b.isZero then .ok (.fin ⟨a.sign && b.sign, 0, 0⟩) else exact a)
+  | .fmin, [a, b] =>
+    some (match a, b with
+      | .nan _, _ => exact b
+      | _, .nan _ => exact a
+      | _, _ =>
+        match a.compare b with
+        | some .lt => exact a
+        | some .gt => exact b
+        | _ => if a.isZero && b.isZero then .ok (.fin ⟨a.sign || b.sign, 0, 0⟩) else exact a)
+  | .fdim, [a, b] =>
+    -- `MPFREngine._fdim`
+    some (
+      if a.isNan || b.isNan then .ok (.nan false)
+      else if a.compare b == some .gt then
+        (match a, b with
+         | .fin x, .fin y => subFin x y
+         | _, _ => .ok (FV.add a b.neg))
+      else .ok (.fin ⟨false, 0, 0⟩))
+  | .fmod, [a, b] =>
+    some (match a, b with
+      | .nan _, _ => .ok (.nan false)
+      | _, .nan _ => .ok (.nan false)
+      | .inf _, _ => .ok (.nan false)
+      | .fin x, .inf _ => exact (.fin x)
+      | .fin x, .fin y =>
+        if y.c = 0 then .ok (.nan false)
+        else if x.c = 0 then .ok (.fin ⟨x.s, 0, 0⟩)
+        else exact (.fin (fmodRF x y)))
+  | .remainder, [a, b] =>
+    some (match a, b with
+      | .nan _, _ => .ok (.nan false)
+      | _, .nan _ => .ok (.nan false)
+      | .inf _, _ => .ok (.nan false)
+      | .fin x, .inf _ => exact (.fin x)
+      | .fin x, .fin y =>
+        if y.c = 0 then .ok (.nan false)
+        else if x.c = 0 then .ok (.fin ⟨x.s, 0, 0⟩)
+        else
+          let r := remainderRF x y
+          -- a zero remainder has the sign of `x`
+          if r.c = 0 then .ok (.fin ⟨x.s, 0, 0⟩) else exact (.fin r))
+  | .mod, [a, b] =>
+    -- `MPFREngine._mod`, arm by arm
+    some (
+      if a.isNan || b.isNan then .ok (.nan false)
+      else if a.isInf then .ok (.nan false)
+      else if b.isInf then
+        (if a.isZero then .ok (a.withSign b.sign)
+         else if a.sign == b.sign then .ok a
+         else .ok b)
+      else if b.isZero then .ok (.nan false)
+      else if a.isZero then .ok (a.withSign b.sign)
+      else match a, b with
+        | .fin x, .fin y => modFin x y
+        | _, _ => .error .assertion)
+  | .pow, [a, b] =>
+    -- `mpfr_pow`, special cases in the order of the MPFR manual
+    some (
+      if b.isZero then .ok (.fin ⟨false, 0, 1⟩)
+      else match a, b with
+        | .nan _, _ => .ok (.nan false)
+        | .fin x, .nan _ => if x.compare ⟨false, 0, 1⟩ == .eq then .ok (.fin ⟨false, 0, 1⟩) else .ok (.nan false)
+        | .inf _, .nan _ => .ok (.nan false)
+        | .inf _, .inf t => .ok (if t then .fin ⟨false, 0, 0⟩ else .inf false)
+        | .fin x, .inf t =>
+          if x.c = 0 then .ok (if t then .inf false else .fin ⟨false, 0, 0⟩)
+          else match x.abs.compare ⟨false, 0, 1⟩ with
+            | .gt => .ok (if t then .fin ⟨false, 0, 0⟩ else .inf false)
+            | .lt => .ok (if t then .inf false else .fin ⟨false, 0, 0⟩)
+            | .eq => .ok (.fin ⟨false, 0, 1⟩)
+        | _, .fin y =>
+          let yi := y.toInt?
+          let oddInt : Bool := match yi with | some i => i % 2 == 1 | none => false
+          match a with
+          | .inf s => .ok (if y.s then .fin ⟨s && oddInt, 0, 0⟩ else .inf (s && oddInt))
+          | .nan _ => .ok (.nan false)
+          | .fin x =>
+            if x.c = 0 then .ok (if y.s then .inf (x.s && oddInt) else .fin ⟨x.s && oddInt, 0, 0⟩)
+            else match yi with
+              | none => if x.s then .ok (.nan false) else .error .notImplemented   -- transcendental: not modelled
+              | some i =>
+                if i ≥ 0 then rto (x.pow i.toNat)
+                else mpfrDivFin ⟨false, 0, 1⟩ (x.pow i.natAbs) prec n)
   | _, _ => none
 
-/-- engine dispatch + `_normalize`: the value `fpy2.ops.<op>(args, ctx=C)` returns -/
-def opEval (C : Ctx) (op : Op) (args : List NV) : Except Err NV :=
+/-- an interpreter value as the operand `Context.round` receives -/
+def NV.toOperand : NV → Operand
+  | .fv v => .flt v
+  | .q n d => .frac n d
+
+/-- exact value comparison `y != x` of a finite `Float` result with the original operand
+(`ops.ceil/floor/trunc/roundint`) -/
+def nvNeFin (y : RF) (x : NV) : Bool := nvCompare (.fv (.fin y)) x != some .eq
+
+def Ctx.isReal : Ctx → Bool | .real => true | _ => false
+
+def resToNV (r : Except Err Res) : Except Err (NV × Flags) := r.map (fun res => (NV.fv res.v, res.fl))
+
+/-- `ctx.round(x, exact=…)` on an engine result (`Float` or `Fraction`) -/
+def roundNV (C : Ctx) (r : NV) (exact : Bool) : Except Err (NV × Flags) :=
+  match r with
+  | .fv v => resToNV (C.roundAtCore v none exact 0)
+  | .q num den => resToNV (C.round (.frac num den) exact)
+
+/-- the `invalid` / `divzero` logic of `ops._normalize` on a rounded result -/
+def normFlags (args : List NV) (res : NV) (fl : Flags) : Flags :=
+  if nvIsNan res then (if args.any nvIsNan then fl else { fl with invalid := true })
+  else if nvIsInf res && !fl.inexact then
+    (if args.all (fun a => !nvIsNar a) then { fl with divzero := true } else fl)
+  else fl
+
+/-- `ops._normalize(x, ctx, args)`; `flagArgs = false` is the call without `args` -/
+def opNormalize (C : Ctx) (args : List NV) (r : NV) (flagArgs : Bool) : Except Err (NV × Flags) :=
+  match C.isReal, r with
+  | true, .q num den => .ok (.q num den, {})
+  | _, _ =>
+    match roundNV C r false with
+    | .error e => .error e
+    | .ok (res, fl) => if flagArgs then .ok (res, normFlags args res fl) else .ok (res, fl)
+
+/-- what `RealEngine` answers (`none` ⇒ it declines too: `NotImplementedError`) -/
+def exactEngine (op : Op) (args : List NV) : Option (Except Err NV) :=
+  match op, args with
+  | .add, [a, b] => some (.ok (realAdd a b))
+  | .sub, [a, b] => some (.ok (realAdd a (realNeg b)))
+  | .mul, [a, b] => some (.ok (realMul a b))
+  | .div, [a, b] => some (.ok (realDiv a b))
+  | .neg, [a] => some (.ok (realNeg a))
+  | .fabs, [a] => some (.ok (match a with | .fv v => .fv v.abs | .q n d => .q (Int.natAbs n) d))
+  | .fma, [a, b, c] => some (.ok (realAdd (realMul a b) c))
+  | .copysign, [a, b] => some (.ok (realCopysign a b))
+  | .fmax, [a, b] => some (.ok (realFmax a b))
+  | .fmin, [a, b] => some (.ok (realFmin a b))
+  | .pow, [a, b] => (realPow a b).map .ok
+  | _, _ => none
+
+/-- `ops.ceil/floor/trunc/roundint`: exact integer by `_real_rint`, one rounding, `inexact` if the
+(finite) result differs from the operand -/
+def opRint (C : Ctx) (args : List NV) (rm : RM) : Except Err (NV × Flags) :=
+  match args with
+  | [a] =>
+    match realRint a rm with
+    | .error e => .error e
+    | .ok r =>
+      match opNormalize C args r false with
+      | .error e => .error e
+      | .ok (.fv (.fin y), fl) => .ok (.fv (.fin y), if nvNeFin y a then { fl with inexact := true } else fl)
+      | .ok res => .ok res
+  | _ => .error .typeError
+
+/-- engine dispatch: MPFR engine when every operand is a `Float` and the context is not exact, else the
+exact engine; then `_normalize` -/
+def opEngines (C : Ctx) (op : Op) (args : List NV) : Except Err (NV × Flags) :=
   let params := C.roundParams
-  let allFloat := args.all (fun a => match a with | .fv _ => true | _ => false)
-  let fvs := args.filterMap (fun a => match a with | .fv v => some v | _ => none)
-  let normalize (r : NV) : Except Err NV :=
-    match C, r with
-    | .real, .q n d => .ok (.q n d)
-    | _, .fv v => (C.roundAtCore v none false 0).map (fun res => NV.fv res.v)
-    | _, .q num den => (C.round (.frac num den)).map (fun res => NV.fv res.v)
-  let exactEngine : Option NV :=
-    match op, args with
-    | .add, [a, b] => some (realAdd a b)
-    | .sub, [a, b] => some (realAdd a (realNeg b))
-    | .mul, [a, b] => some (realMul a b)
-    | .div, [a, b] => some (realDiv a b)
-    | .neg, [a] => some (realNeg a)
-    | .fabs, [a] => some (match a with | .fv v => .fv v.abs | .q n d => .q (Int.natAbs n) d)
-    | .fma, [a, b, c] => some (realAdd (realMul a b) c)
-    | _, _ => none
-  match op with
-  | .round => match args with
-    | [.fv v] => (C.roundAtCore v none false 0).map (fun res => NV.fv res.v)
-    | [.q num den] => (match C with | .real => .ok (.q num den) | _ => (C.round (.frac num den)).map (fun res => NV.fv res.v))
-    | _ => .error .typeError
-  | _ =>
-    let useMpfr := allFloat && !(params.1.isNone && params.2.isNone)
-    match (if useMpfr then mpfrOp op fvs params.1 params.2 else none) with
-    | some (.ok v) => normalize (.fv v)
+  let allFloat := args.all nvIsFloat
+  let fvs := args.filterMap nvFloat?
+  let useMpfr := allFloat && !(params.1.isNone && params.2.isNone)
+  match (if useMpfr then mpfrOp op fvs params.1 params.2 else none) with
+  | some (.ok v) => opNormalize C args (.fv v) true
+  | some (.error e) => .error e
+  | none =>
+    match exactEngine op args with
+    | some (.ok r) => opNormalize C args r true
     | some (.error e) => .error e
-    | none =>
-      match exactEngine with
-      | some r => normalize r
-      | none => .error .notImplemented
+    | none => .error .notImplemented
+
+/-- the value and flags `fpy2.ops.<op>(args, ctx=C)` returns.
+A `Fraction` result (exact context) carries no flags. -/
+def opEvalFl (C : Ctx) (op : Op) (args : List NV) : Except Err (NV × Flags) :=
+  match op with
+  | .round =>
+    match args with
+    | [a] => (match C.isReal, a with | true, .q num den => .ok (.q num den, {}) | _, _ => roundNV C a false)
+    | _ => .error .typeError
+  | .roundExact =>
+    match args with
+    | [a] => (match C.isReal, a with | true, .q num den => .ok (.q num den, {}) | _, _ => roundNV C a true)
+    | _ => .error .typeError
+  | .cast =>
+    match args with
+    | [a] => if C.isReal then .ok (a, {}) else roundNV C a true
+    | _ => .error .typeError
+  | .roundAt =>
+    match args with
+    | [a, nn] =>
+      (match nn with
+       | .q _ _ => .error .valueError                -- `_cvt_to_float` refuses a non-dyadic rational
+       | .fv (.fin r) =>
+         (match r.toInt? with
+          | none => .error .valueError
+          | some i => if C.isReal then .error .valueError else resToNV (C.roundAt a.toOperand i))
+       | .fv _ => .error .valueError)
+    | _ => .error .typeError
+  | .nearbyint =>
+    match args with
+    | [a] => if C.isReal then .error .assertion else resToNV (C.roundAt a.toOperand (-1))
+    | _ => .error .typeError
+  | .ceil => opRint C args .rtp
+  | .floor => opRint C args .rtn
+  | .trunc => opRint C args .rtz
+  | .roundint => opRint C args .rna
+  | _ => opEngines C op args
+
+/-- the value `fpy2.ops.<op>(args, ctx=C)` returns -/
+def opEval (C : Ctx) (op : Op) (args : List NV) : Except Err NV :=
+  (opEvalFl C op args).map (·.1)
 
 end Fpy
